@@ -120,8 +120,62 @@ fn soup_token(t: &mut Tape) -> String {
     }
 }
 
+/// Deeply nested generic / array types (bounded: a few KB of source).
+fn nested_type(t: &mut Tape) -> String {
+    let k = t.below(300);
+    let mut open = String::new();
+    let mut close = String::new();
+    for _ in 0..k {
+        match t.below(8) {
+            0 => {
+                open.push_str("vec<");
+                close.insert(0, '>');
+            }
+            1 => {
+                open.push_str("box<");
+                close.insert(0, '>');
+            }
+            2 => {
+                open.push_str("map<u8 -> ");
+                close.insert(0, '>');
+            }
+            3 => {
+                open.push_str("result<u8, ");
+                close.insert(0, '>');
+            }
+            4 => {
+                open.push('[');
+                close.insert_str(0, "; 2]");
+            }
+            5 => {
+                open.push_str("set<");
+                close.insert(0, '>');
+            }
+            _ => {
+                open.push_str("option<");
+                close.insert(0, '>');
+            }
+        }
+    }
+    let leaf = text::ps(t, &["u8", "T", "Foo", "a::Foo", "string", ""]);
+    let cut = t.below(4) == 0;
+    let mut s = format!("{}{}{}", open, leaf, close);
+    if cut {
+        let at = char_boundary_at(&s, t.below(s.len() + 1));
+        s.truncate(at);
+    }
+    match t.below(3) {
+        0 => format!("newtype T = {s};\n"),
+        1 => format!("struct S {{ a @ 1 = {s}; }}\n"),
+        _ => format!("service Svc {{ uuid = 11111111-1111-4111-8111-111111111111; version = 1; fn f @ 1 = {s}; }}\n"),
+    }
+}
+
 fn soup(t: &mut Tape) -> String {
     let mode = t.below(3);
+    if mode == 2 && t.chance(40) {
+        return nested_type(t);
+    }
     let n = t.below(70);
     let mut s = String::new();
     for _ in 0..n {
